@@ -130,6 +130,17 @@ def gen_cases(ctx, count):
             cases.append({"space": space, "kind": kind, "n": n, "ns": ns, "state": state, "cls": cls, "mode": m, "option": o,
                           "seed": seed, "policy": "on_t_sample", "twice": False,
                           "refused": rng.choice(["floor", "floor", "Floor", "round ", "", "poisson"])})
+        if rng.random() < 0.4:
+            # the state given as a UnitArray in a quantity unit OTHER than the system's (system and script units default):
+            # the engine must receive the molecule numbers, computed here from SI (N_A) independently of the package
+            unit, per_unit = rng.choice([("fmol", Fraction(602214076)), ("pmol", Fraction(602214076000)), ("nmol", Fraction(602214076000000))])
+            mol = [Fraction(rng.choice([0, 0, 3, 12, 40, 150, 266])) + rng.choice([Fraction(1, 2), Fraction(1, 4), Fraction(0)]) for _ in range(n * ns)]
+            in_unit = [float(v / per_unit) for v in mol]
+            expect = [float(Fraction(v) * per_unit) for v in in_unit]
+            m, o = rng.choice([(mm, oo) for mm in MODES for oo in OPTIONS])
+            cases.append({"space": space, "kind": kind, "n": n, "ns": ns, "state": expect, "cls": "state-in-other-unit", "mode": m,
+                          "option": o, "seed": seed, "policy": "on_t_sample", "twice": False, "state_unit": unit,
+                          "state_in_unit": in_unit, "inexact": True})
         if rng.random() < 0.3:
             # the script's own default (keyword omitted): must behave like "auto"
             cases.append({"space": space, "kind": kind, "n": n, "ns": ns, "state": state, "cls": cls, "mode": None,
@@ -187,7 +198,11 @@ def child_case(case, lib):
     net = {"species": [{"label": stoch_gen.LABELS[s], "density": 0, "D": 0} for s in range(ns)], "reactions": [],
            "environments": ["a"]}
     system = stoch_gen.build_system(net, case["space"])
-    system.state = list(case["state"])
+    if case.get("state_unit"):
+        from strengths.units import UnitArray
+        system.state = UnitArray(list(case["state_in_unit"]), case["state_unit"])   # a state in another unit than the system's
+    else:
+        system.state = list(case["state"])
     if case.get("chem") is not None:
         system.chemostats = list(case["chem"])
     sent = [float(v) for v in system.state.value]
@@ -337,7 +352,7 @@ def oracle(case, res):
     if "again" in res and res["again"] != y:
         fails.append(("not-reproducible:%s" % em, "two runs with the same seed give different t = 0 states"))
     if em == "none":
-        if case.get("units"):
+        if case.get("units") or case.get("inexact"):
             same = all(common.close(v, q, rel=1e-9) for v, q in zip(y, x))
         else:
             same = [frac(v) for v in y] == x
@@ -439,7 +454,7 @@ def compare_model(ctx, case, res, ans):
                      note="the model needs more (or other) draws than the engine consumed")
         return
     mx = [rparse(v) for v in o["x"]]
-    if case.get("units") and effective_mode(case["mode"], case["option"]) == "none":
+    if (case.get("units") or case.get("inexact")) and effective_mode(case["mode"], case["option"]) == "none":
         differs = not all(common.close(v, q, rel=1e-9) for v, q in zip(res["x0"], mx))
     else:
         differs = mx != [frac(v) for v in res["x0"]]
@@ -491,7 +506,9 @@ def run(ctx):
                 ctx.count("correction_loop_cases")
                 ctx.count("correction_loop_uniforms", sum(1 for d in res["draws"] if d[0] == "unif"))
             fails, amb = oracle(case, res)
-            small = {k2: case[k2] for k2 in ("space", "kind", "n", "ns", "state", "mode", "option", "seed", "policy", "twice", "units", "chem", "seed_type", "route", "refused") if k2 in case}
+            small = {k2: case[k2] for k2 in ("space", "kind", "n", "ns", "state", "mode", "option", "seed", "policy", "twice", "units", "chem", "seed_type", "route", "refused", "state_unit", "state_in_unit", "inexact") if k2 in case}
+            if case.get("state_unit"):
+                ctx.count("state_given_in_" + case["state_unit"])
             if case.get("refused") is not None:
                 ctx.count("refused_assignment_then_run")
             if case.get("route"):
